@@ -7,17 +7,21 @@ import (
 	"github.com/weedbox/syncsaga"
 )
 
+func newReadyGroup(timeout int) *syncsaga.ReadyGroup {
+	return syncsaga.NewReadyGroup(syncsaga.WithTimeout(timeout, func(rg *syncsaga.ReadyGroup) {
+		// Auto Ready By Default
+		for idx, isReady := range rg.GetParticipantStates() {
+			if !isReady {
+				rg.Ready(idx)
+			}
+		}
+	}))
+}
+
 func NewOpenGameManager(options OpenGameOption) OpenGameManager {
 	m := &openGameManager{
 		onOpenGameReady: options.OnOpenGameReady,
-		rg: syncsaga.NewReadyGroup(syncsaga.WithTimeout(options.Timeout, func(rg *syncsaga.ReadyGroup) {
-			// Auto Ready By Default
-			for idx, isReady := range rg.GetParticipantStates() {
-				if !isReady {
-					rg.Ready(idx)
-				}
-			}
-		})),
+		rg:              newReadyGroup(options.Timeout),
 	}
 	m.state = &OpenGameState{
 		Timeout:      options.Timeout,
@@ -31,22 +35,16 @@ func NewOpenGameManager(options OpenGameOption) OpenGameManager {
 func NewOpenGameManagerFromState(state OpenGameState, options OpenGameOption) OpenGameManager {
 	m := &openGameManager{
 		onOpenGameReady: options.OnOpenGameReady,
-		rg: syncsaga.NewReadyGroup(syncsaga.WithTimeout(options.Timeout, func(rg *syncsaga.ReadyGroup) {
-			// Auto Ready By Default
-			for idx, isReady := range rg.GetParticipantStates() {
-				if !isReady {
-					rg.Ready(idx)
-				}
-			}
-		})),
+		rg:              newReadyGroup(options.Timeout),
 		state: &OpenGameState{
 			Timeout:      options.Timeout,
 			GameCount:    state.GameCount,
 			Participants: make(map[string]*OpenGameParticipant),
 		},
 	}
-	m.rg.OnCompleted(func(rg *syncsaga.ReadyGroup) {
-		m.readyGroupOnCompleted()
+	rg := m.rg
+	m.rg.OnCompleted(func(*syncsaga.ReadyGroup) {
+		m.readyGroupOnCompleted(rg)
 	})
 
 	m.readyGroupResetParticipants()
@@ -75,11 +73,18 @@ func (m *openGameManager) Ready(participantID string) error {
 }
 
 func (m *openGameManager) Setup(gameCount int, participants map[string]int) {
+	m.mu.Lock()
+	defer m.mu.Unlock()
+
 	m.state.GameCount = gameCount
 
+	// Every set-up gets its own ready group: signals and timeouts still pending in the
+	// superseded group must neither be applied to nor complete the new one.
 	m.rg.Stop()
-	m.rg.OnCompleted(func(rg *syncsaga.ReadyGroup) {
-		m.readyGroupOnCompleted()
+	m.rg = newReadyGroup(m.state.Timeout)
+	rg := m.rg
+	m.rg.OnCompleted(func(*syncsaga.ReadyGroup) {
+		m.readyGroupOnCompleted(rg)
 	})
 	m.readyGroupResetParticipants()
 	for id, idx := range participants {
